@@ -182,6 +182,7 @@ fn main() {
                     },
                     fut: args.get("fut").map(|v| v == "1"),
                     small: args.flag("small"),
+                    long: args.flag("long"),
                     policy: match args.get("policy") {
                         Some("none") => Some(hooks::Policy::None),
                         Some("yield") => Some(hooks::Policy::Yield),
